@@ -1,3 +1,80 @@
-import NfcVerif.Model.Pdu
+import NfcVerif.Lemmas.PduRound
+/-!
+# C11 - LLCP PDU encoding and decoding are mutually consistent
+
+Statements only; proofs are in `Lemmas/Pdu.lean` (length), `Lemmas/PduSafe.lean`
+(totality, locality) and `Lemmas/PduRound.lean` (round trip).  The model
+`Model/Pdu.lean` transcribes `nfc/llcp/pdu.py` with the repairs of `fixes/C11`
+(RW = 0 is encoded; `decode` restricts the buffer to the PDU; AGF inside AGF is
+refused).  `Impl.decode b = Impl.decodeAt b 0 b.length`.
+-/
 namespace NfcVerif.C11
+open NfcVerif NfcVerif.Pdu
+
+/-- Round trip with *field* equality (not the library's encoding-based `__eq__`), for
+all 14 PDU classes and the unknown types 1011/1111: SAPs 0..63, N(S)/N(R) 0..15,
+MIU 128..128+0x7FF, RW 0..15 (including 0), VERSION/LTO 0..255, WKS 0..0xFFFF,
+OPT 0..7, DM reason 0..255, FRMR nibbles, service names/ECPK/RN of 1..255 octets
+(absent = `none`), any number of SDREQ (name 0..254 octets) and SDRES entries,
+payloads of any length, aggregates of any number of valid non-aggregate PDUs
+of at most 65535 octets each. -/
+theorem pdu_roundtrip (p : Pdu) (h : Valid p) :
+    ∃ b, Impl.encode p = .ok b ∧ Impl.decode b = .ok p :=
+  Impl.roundtrip p h
+
+/-- `len(pdu)` is the length of the encoding - whenever the PDU can be encoded at
+all (valid or not). -/
+theorem pdu_len (p : Pdu) (b : Bytes) (h : Impl.encode p = .ok b) : Impl.len p = b.length :=
+  Impl.len_eq h
+
+/-- every valid PDU can be encoded, so `pdu_len` is not vacuous on valid PDUs -/
+theorem pdu_len_valid (p : Pdu) (h : Valid p) : ∃ b, Impl.encode p = .ok b ∧ Impl.len p = b.length := by
+  obtain ⟨b, he, _⟩ := Impl.roundtrip p h
+  exact ⟨b, he, Impl.len_eq he⟩
+
+/-- Decoding ANY list of numbers (in particular any octet string of any length)
+yields a PDU or `DecodeError`: no `struct.error`, `IndexError`, recursion or
+exhausted loop, also for aggregates and their elements. -/
+theorem pdu_decode_total (b : Bytes) : Safe OnlyDecodeError (Impl.decode b) :=
+  Impl.decodeAt_safe b 0 b.length
+
+/-- the same for `decode(data, offset, size)` with arbitrary offset and size -/
+theorem pdu_decode_at_total (data : Bytes) (off size : Nat) : Safe OnlyDecodeError (Impl.decodeAt data off size) :=
+  Impl.decodeAt_safe data off size
+
+/-- A PDU inside an aggregate (`decode(data, offset+2, pdu_size, nested=True)` in
+`AggregatedFrame.decode`) is decoded from its own octets only: what precedes
+and what follows in the buffer has no influence. -/
+theorem agf_locality (pre e post : Bytes) :
+    Impl.decodeNested (pre ++ e ++ post) pre.length e.length = Impl.decodeNested e 0 e.length :=
+  Impl.decodeNested_local pre e post
+
+/-- the same for the public `decode(data, offset, size)` -/
+theorem decode_at_locality (pre e post : Bytes) :
+    Impl.decodeAt (pre ++ e ++ post) pre.length e.length = Impl.decode e :=
+  Impl.decodeAt_local pre e post
+
+/-- an aggregated PDU decodes like the same octets received on their own -/
+theorem nested_eq_decode (e : Bytes) (p : SPdu) (h : Impl.decodeNested e 0 e.length = .ok p) :
+    Impl.decode e = .ok (.simple p) :=
+  Impl.decodeAt_of_nested h
+
+/-! Non-vacuity and the three repaired defects on concrete inputs. -/
+example : Valid (.simple (.connect 4 32 130 0 (some [0x41, 0x42]))) := by simp [Valid, ValidS]
+example : Valid (.agf 0 0 [.disc 1 2, .snl 1 1 [(1, [0x61])] [(2, 16)], .pax 0 0 (some 0x13) none (some 3) none (some 3)]) := by
+  simp [Valid, ValidS, Impl.lenS, Impl.optLen, Impl.sumMap]
+/-- F4: RW = 0 gets its TLV (the unrepaired code produced `11 20` and the peer assumed RW = 1) -/
+example : Impl.encode (.simple (.connect 4 32 128 0 none)) = .ok [0x11, 0x20, 5, 1, 0] := by decide
+example : Impl.decode [0x11, 0x20, 5, 1, 0] = .ok (.simple (.connect 4 32 128 0 none)) := by decide
+example : Impl.len (.simple (.connect 4 32 128 0 none)) = 5 := by decide
+/-- F5: CONNECT with a cut MIUX TLV inside an aggregate; the unrepaired code read the value `00 02`
+from the length field of the next element -/
+example : Impl.decode [0, 0x80, 0, 4, 0x11, 0x20, 2, 2, 0, 2, 0x05, 0x40] = .error .decodeError := by decide
+example : Impl.decodeAt [0x11, 0x20, 6, 4, 0x41, 0x42, 0x43, 0x44] 0 4 = .error .decodeError := by decide
+/-- F6: an aggregate inside an aggregate is refused, whatever the depth -/
+example : Impl.decode [0, 0x80, 0, 6, 0, 0x80, 0, 2, 0, 0x80] = .error .decodeError := by decide
+example : Impl.decode [0, 0x80, 0, 2, 0x05, 0x41, 0, 3, 0x0F, 0x44, 0x05] =
+    .ok (.agf 0 0 [.disc 1 1, .rr 3 4 5]) := by decide
+example : Impl.decode [0x03] = .error .decodeError := by decide
+
 end NfcVerif.C11
